@@ -32,13 +32,28 @@ theorem step_eq (st : State) (op : Op) : step st op = stepC Cfg.repaired st op :
 theorem run_eq (st : State) (ops : List Op) : run st ops = runC Cfg.repaired st ops := by
   unfold run; rw [C14_source_is_repaired]
 
-/-- Every exported method of `TransientData` is one critical section of `t.mu` (or a plain
-delegation to one), the expiry callback takes the same mutex, a `nil` value means remove. -/
+/-- Every exported method of `TransientData` is one critical section (or a plain delegation to
+one): of the store mutex `t.mu`, except `RemoveListener`, whose critical section is the listener
+set's own mutex.  The expiry callback takes `t.mu`, a `nil` value means remove, and the only
+senders `notifySet` / `notifyDeleted` are reached from `doSet` / `doRemove` alone — so a whole
+`Op` of the model is one atomic step, and delivery order is commit order. -/
 theorem C14_atomic_ops :
     atomicMethods = exportedMethods ∧
     exportedMethods = ["AddListener", "CompareAndRemove", "CompareAndSet", "CompareAndSetTTL", "GetData",
       "Remove", "RemoveListener", "Set", "SetTTL"] ∧
+    otherLockMethods = ["RemoveListener:listenersMu"] ∧
+    notifyCallers = ["doRemove->notifyDeleted", "doSet->notifySet"] ∧
     expiryCallbackLocked = true ∧ setNilRemoves = true ∧ casNilRemoves = true := by decide
+
+/-- The listener set lives under a leaf mutex: every access to `t.listeners` is inside a
+`t.listenersMu` section, no such section calls anything but map / slice builtins, and
+`RemoveListener` takes no other lock.  A listener whose `SendMessage` takes a lock that is also
+held while it is being removed (session mutex: `LeaveRoom` → `RemoveSession` → `RemoveListener`)
+can therefore not close a cycle through `t.mu` (the deadlock of the pinned tree, fixed in d70134f). -/
+theorem C14_listener_lock_is_leaf :
+    listenerSetUsers = ["AddListener", "RemoveListener", "getListeners"] ∧
+    listenerSetUnguarded = [] ∧ listenersMuCallsOut = [] ∧
+    otherLockMethods = ["RemoveListener:listenersMu"] := by decide
 
 /-- `room.go` / `hub.go` reach the store only through these delegations: the room's setters are
 one-line calls, sessions are registered as listeners on join and unregistered on leave. -/
